@@ -270,9 +270,10 @@ def templates(ctx):
     quick = ctx.tier == "quick"
     names = sorted(kinds(ctx)) + ["nope", "", "HS257"]
     out = []
-    ktys = [None, "oct", "EC", "RSA", "x"]
-    crvs = [None, "P-256", "P-384", "P-521", "secp256k1", "P-192", 5]
-    byts = [None, -1, 0, 1, 16, 32, 1024, 1025, "16", 1.5, True]
+    ktys = [None, "oct", "EC", "RSA", "x", "OCT", "ec", "Rsa"]          # names are case-sensitive (RFC 7517/7518)
+    crvs = [None, "P-256", "P-384", "P-521", "secp256k1", "P-192", 5, "p-256", "SECP256K1"]
+    byts = [None, -1, 0, 1, 16, 32, 1024, 1025, "16", 1.5, True, 2 ** 32 + 16, 2 ** 32 + 32, 2 ** 31]
+    names = names + ["hs256", "Es256", "a128kw", "ecdh-es", "RSA-oaep"]
     # alg x kty x (crv | bytes): everything except RSA generation
     for alg in [None] + names:
         for kty in ktys:
@@ -313,10 +314,12 @@ def templates(ctx):
         rsa.append({"alg": "PS256", "bits": 2048, "e": e})
     good = [{"kty": "RSA"}, {"kty": "RSA", "bits": 2048, "e": 3}, {"kty": "RSA", "e": 65537}, {"kty": "RSA", "e": "AQAB"}, {"alg": "RSA-OAEP"},
             {"kty": "RSA", "e": 65539}, {"alg": "RS512", "use": "sig"}, {"kty": "RSA", "bits": 2049}, {"kty": "RSA", "e": "Aw"}]
+    # sizes other than the default are judged in both tiers (3072 is named by the property)
+    good += [{"kty": "RSA", "bits": 3072}, {"alg": "PS384", "bits": 2560}]
     if not quick:
-        good += [{"kty": "RSA", "bits": 3072}, {"alg": "PS384", "bits": 2560}, {"kty": "RSA", "bits": 4096, "e": 3}] + rsa_gen[:20]
+        good += [{"kty": "RSA", "bits": 4096, "e": 3}] + rsa_gen[:20] + [{"alg": a_} for a_ in ("RS256", "RS384", "PS512", "RSA1_5", "RSA-OAEP-256", "RSA-OAEP-512")]
     else:
-        good += rsa_gen[:4]
+        good += rsa_gen[:4] + [{"alg": rng.choice(["RS256", "RS384", "PS512", "RSA1_5", "RSA-OAEP-256", "RSA-OAEP-384"])}]
     return rsa_free, rsa, good
 
 
@@ -345,6 +348,7 @@ def use_keys(ctx, acc):
     k = kinds(ctx)
     pay = G.b64u(b"generated keys must work")
     st1 = []
+    exch = []
     for t, j in acc:
         if expected(ctx, t)[0] != "accept":
             continue
@@ -360,6 +364,29 @@ def use_keys(ctx, acc):
             st1.append(("jwe.enc", {"jwe": {"protected": {"enc": "A128GCM"} if alg != "dir" else {}}, "jwk": j, "pt": "c0de", "rand": rng.randbytes(300).hex(), "_j": j, "_alg": alg}))
         elif kind == "encr":
             st1.append(("jwe.enc_cek", {"jwe": {}, "cek": j, "pt": "c0de", "rand": rng.randbytes(64).hex(), "_j": j, "_alg": alg}))
+        elif kind == "exch":
+            exch.append((alg, j))
+    # keys generated for a key-exchange algorithm exchange with one another (same algorithm, same curve), both ways agree
+    import ecmath as M
+    byc = {}
+    for alg, j in exch:
+        byc.setdefault((alg, j.get("crv")), []).append(j)
+    xo = []
+    for (alg, crv), js_ in byc.items():
+        for a_, b_ in zip(js_, js_[1:] + js_[:1]):
+            xo.append(("jwk.exc", {"prv": a_, "pub": K.public(b_), "_alg": alg}))
+            xo.append(("jwk.exc", {"prv": b_, "pub": K.public(a_), "_alg": alg}))
+    xr = ctx.real([(o, strip(a)) for o, a in xo[:80]])
+    for i in range(0, len(xr) - 1, 2):
+        ctx.evaluations += 2
+        (o, a), r1, r2 = xo[i], xr[i], xr[i + 1]
+        if "v" not in r1 or "v" not in r2:
+            ctx.pfails.append(("gen:key-unusable", "keys generated for %s do not exchange: %s" % (a["_alg"], json.dumps(strip(a))[:300]), o, strip(a), r1))
+        elif a["_alg"] == "ECDH" and r1["v"] != r2["v"]:
+            ctx.pfails.append(("gen:key-unusable", "keys generated for ECDH exchange to different values", o, strip(a), r1))
+        elif not M.valid_key(r1["v"]):
+            ctx.pfails.append(("gen:key-unusable", "exchange of generated keys gives a point off their curve", o, strip(a), r1))
+    ctx.count("exchange-keys-used", len(xr))
     if len(st1) > 400:
         st1 = rng.sample(st1, 400)
     sent = [(o, strip(a)) for o, a in st1]
